@@ -62,6 +62,21 @@ Theorem C18_split_final : forall cfg s e s',
 Proof. exact split_final. Qed.
 Print Assumptions C18_split_final.
 
+(* the community pool really keeps the remainder: in the final state of a successful minting epoch the distribution
+   module account and its community-pool entry hold at least remainder + developer parts addressed to it, the remainder
+   is at least the pool's own truncated share, and the hook only moves pool-incentives funds onwards *)
+Theorem C18_community_gets_remainder : forall cfg s e s',
+  valid_cfg cfg -> 0 <= s_prov s -> p_start cfg <= e -> 0 <= bal (s_bank s) APool ->
+  after_epoch_end cfg s true e = Ok s' ->
+  let M := minted_at cfg s e in
+  let b := s_bank s in let b' := s_bank s' in
+  bal b ADistr + comm_of cfg M + dev_to_community cfg (dev_of cfg M) <= bal b' ADistr /\
+  cpool b + comm_of cfg M + dev_to_community cfg (dev_of cfg M) <= cpool b' /\
+  share M (p_comm cfg) <= comm_of cfg M /\
+  bal b AInc <= bal b' AInc /\ 0 <= bal b' APool <= bal b APool + share M (p_pool cfg).
+Proof. exact community_gets_remainder. Qed.
+Print Assumptions C18_community_gets_remainder.
+
 (* reduction_exactly_at: over consecutive successful epochs e0, e0+1, ... beginning no later than the start epoch,
    the provision is multiplied by the reduction factor at the epochs start + k*period (k >= 1) and at no other;
    after epoch e the provision is the initial one reduced (e - start) / period times and the marker sits on the grid *)
